@@ -1109,6 +1109,11 @@ func (e *Env) unfoldRec(rd *recDef, actuals []string, nargs int, app string) {
 	if e.declared[key] {
 		return
 	}
+	if len(actuals) != nargs+len(rd.heapNames) || nargs != len(rd.paramSyms) {
+		// the definition's heap parameter list changed since this application was built
+		// (nested symbolic contexts): no defining equation is assumed for it (sound: fewer facts)
+		return
+	}
 	e.declared[key] = true
 	var pairs []string
 	for i, p := range rd.paramSyms {
